@@ -186,7 +186,19 @@ func c38GenDiagram(r *Rng, rich int) string {
 	}
 	var b strings.Builder
 	c38Emit(r, rich, &b, root, root, edges, 0)
-	return b.String()
+	text := b.String()
+	// sometimes set an edge attribute through a separate edge-key reference `(a -> b)[1].style.opacity: 0.4`
+	// (such references carry an explicit index that Delete has to renumber)
+	if rich >= 1 && len(edges) > 0 && r.Chance(0.5) {
+		if g, err := c38Compile(text); err == nil && len(g.Edges) > 0 {
+			for k := r.Range(1, 2); k > 0; k-- {
+				e := g.Edges[r.Intn(len(g.Edges))]
+				a := r.Pick(c38EdgeAttrKeys)
+				text += fmt.Sprintf("%s.%s: %s\n", e.AbsID(), a, c38AttrValue(r, a))
+			}
+		}
+	}
+	return text
 }
 
 func c38SortedKeys(m map[string]string) []string {
@@ -834,8 +846,57 @@ func c38Compile(text string) (g *d2graph.Graph, err error) {
 	return g, err
 }
 
+// c38RunStep applies one operation with the real d2oracle functions and renders the case.
+// It also returns the text to continue the history from (the text before, when the edit failed).
+func c38RunStep(g *d2graph.Graph, pg *c38PGraph, op *c38Op, class string, s int,
+	kf func(pg *c38PGraph, op *c38Op, text string) []string) (Case, string) {
+	text := d2format.Format(g.AST)
+	kfs := kf(pg, op, text) // before the edit: the edit functions mutate the AST and the references of g
+	res := c38Apply(g, op)
+	c := Case{Class: class + "/" + op.Kind, Nontrivial: true, Key: text + "|" + op.Kind + "|" + op.Key + "|" + op.Arg + "|" + coqBool(op.Incl)}
+	c.Input = map[string]any{"text": text, "op": op, "step": s}
+	c.KF = kfs
+	after := pg
+	next := text
+	errFlag := false
+	impl := map[string]any{}
+	if res.tmo {
+		c.ImplFail = append(c.ImplFail, "timeout in "+op.Kind)
+	}
+	if res.panic != "" {
+		c.ImplFail = append(c.ImplFail, "panic in edit: "+res.panic)
+	}
+	if res.dpanic != "" {
+		c.ImplFail = append(c.ImplFail, "panic in delta function: "+res.dpanic)
+	}
+	if res.err != nil || res.g == nil {
+		errFlag = true
+		if res.err != nil {
+			impl["err"] = res.err.Error()
+		}
+	} else {
+		after = c38Project(res.g)
+		next = d2format.Format(res.g.AST)
+		impl["text"] = next
+	}
+	ds := "None"
+	if res.derr == nil && res.dpanic == "" && !res.tmo {
+		if t, ok := c38CoqDeltas(res.deltas); ok {
+			ds = "(Some " + t + ")"
+		} else {
+			c.ImplFail = append(c.ImplFail, fmt.Sprintf("unparsable delta map %v", res.deltas))
+		}
+		impl["deltas"] = res.deltas
+	} else if res.derr != nil {
+		impl["deltas_err"] = res.derr.Error()
+	}
+	c.Impl = impl
+	c.Coq = fmt.Sprintf("Step %s %s %s %s %s %s", c38CoqGraph(pg), op.Coq, coqBool(errFlag), c38CoqRows(after), c38CoqEdges(after.Edges), ds)
+	return c, next
+}
+
 // c38History runs one random edit history and returns its steps as cases.
-// ctor is the Coq constructor of the property's `case` type; kf computes the known-finding tags.
+// kf computes the known-finding tags of a step.
 func c38History(r *Rng, text string, steps int, kinds []string, class string,
 	kf func(pg *c38PGraph, op *c38Op, text string) []string) []Case {
 	var out []Case
@@ -852,57 +913,12 @@ func c38History(r *Rng, text string, steps int, kinds []string, class string,
 		if op == nil {
 			break
 		}
-		text = d2format.Format(g.AST)
-		kfs := kf(pg, op, text) // before the edit: the edit functions mutate the AST and the references of g
-		res := c38Apply(g, op)
-		c := Case{Class: class + "/" + op.Kind, Nontrivial: true, Key: text + "|" + op.Kind + "|" + op.Key + "|" + op.Arg + "|" + coqBool(op.Incl)}
-		c.Input = map[string]any{"text": text, "op": op, "step": s}
-		c.KF = kfs
-		after := pg
-		errFlag := false
-		impl := map[string]any{}
-		if res.tmo {
-			c.ImplFail = append(c.ImplFail, "timeout in "+op.Kind)
-		}
-		if res.panic != "" {
-			c.ImplFail = append(c.ImplFail, "panic in edit: "+res.panic)
-		}
-		if res.dpanic != "" {
-			c.ImplFail = append(c.ImplFail, "panic in delta function: "+res.dpanic)
-		}
-		var g2 *d2graph.Graph
-		if res.err != nil || res.g == nil {
-			errFlag = true
-			if res.err != nil {
-				impl["err"] = res.err.Error()
-			}
-		} else {
-			g2 = res.g
-			after = c38Project(g2)
-			impl["text"] = d2format.Format(g2.AST)
-		}
-		ds := "None"
-		if res.derr == nil && res.dpanic == "" && !res.tmo {
-			if t, ok := c38CoqDeltas(res.deltas); ok {
-				ds = "(Some " + t + ")"
-			} else {
-				c.ImplFail = append(c.ImplFail, fmt.Sprintf("unparsable delta map %v", res.deltas))
-			}
-			impl["deltas"] = res.deltas
-		} else if res.derr != nil {
-			impl["deltas_err"] = res.derr.Error()
-		}
-		c.Impl = impl
-		c.Coq = fmt.Sprintf("Step %s %s %s %s %s %s", c38CoqGraph(pg), op.Coq, coqBool(errFlag), c38CoqRows(after), c38CoqEdges(after.Edges), ds)
+		c, next := c38RunStep(g, pg, op, class, s, kf)
 		out = append(out, c)
 		if len(c.ImplFail) > 0 {
 			break
 		}
 		// continue from a fresh compile of the resulting text (the edit functions mutate the AST of their input)
-		next := text
-		if g2 != nil {
-			next = d2format.Format(g2.AST)
-		}
 		g, err = c38Compile(next)
 		if err != nil {
 			break
@@ -1031,6 +1047,51 @@ func c38GenUnique(taken map[string]bool, strip bool, n string) string {
 	}
 }
 
+// c38HoistNames: Go copy of Spec.v hoist_kids on names. withOthers=false leaves out the names of the
+// other children when a fresh name is generated (what MoveIDDeltas does).
+func c38HoistNames(sib map[string]bool, xn string, kids []string, withOthers bool) []string {
+	ex := map[string]bool{}
+	for k := range sib {
+		ex[k] = true
+	}
+	for _, k := range kids {
+		if k == xn {
+			ex[xn] = true
+		}
+	}
+	asg := map[string]bool{}
+	var out []string
+	for _, n := range kids {
+		if n == xn {
+			out = append(out, n)
+			continue
+		}
+		if sib[n] || asg[n] {
+			taken := map[string]bool{}
+			for k := range ex {
+				taken[k] = true
+			}
+			for k := range asg {
+				taken[k] = true
+			}
+			if withOthers {
+				for _, m := range kids {
+					if m != n && m != xn {
+						taken[m] = true
+					}
+				}
+			}
+			n2 := c38GenUnique(taken, sib[n], n)
+			asg[n2] = true
+			out = append(out, n2)
+		} else {
+			asg[n] = true
+			out = append(out, n)
+		}
+	}
+	return out
+}
+
 func c38Features(pg *c38PGraph, op *c38Op) map[string]bool {
 	f := map[string]bool{}
 	t := op.tgt
@@ -1076,6 +1137,28 @@ func c38Features(pg *c38PGraph, op *c38Op) map[string]bool {
 		sn := sibNames(t)
 		if op.name != t.Name && c38GenUnique(sn, sn[op.name], op.name) == t.Name {
 			f["rename-wrong-scope"] = true
+		}
+	}
+	if op.Kind == "move" && !op.Incl {
+		sn := sibNames(t)
+		var kn []string
+		for _, k := range t.Kids {
+			kn = append(kn, k.Name)
+		}
+		if op.dest == t.Par {
+			// MoveIDDeltas predicts conflict renames of the children although a same-scope move hoists nothing
+			for _, k := range kn {
+				if k != t.Name && sn[k] {
+					f["move-deltas-same-scope"] = true
+				}
+			}
+		} else {
+			a, b := c38HoistNames(sn, t.Name, kn, true), c38HoistNames(sn, t.Name, kn, false)
+			for i := range a {
+				if a[i] != b[i] {
+					f["move-deltas-sibling-names"] = true
+				}
+			}
 		}
 	}
 	if op.Kind == "move" {
@@ -1163,9 +1246,147 @@ func c38KF(pg *c38PGraph, op *c38Op, text string) []string {
 	})
 }
 
+// c38Script: hand-picked single steps (text, operation by ID) that every run replays first.
+type c38Step struct {
+	text, kind, key, arg string
+	incl                 bool
+}
+
+var c38Scripts = []c38Step{
+	// hoisting with a name collision; the renamed child is an endpoint of parallel edges
+	{c38Corpus[0], "delobj", "a", "", false},
+	{c38Corpus[0], "deledge", "(a.b -> b)[1]", "", false},
+	{c38Corpus[0], "deledge", "(a.b -> b)[0]", "", false},
+	{c38Corpus[0], "move", "a.c", "b.c", true},
+	{c38Corpus[0], "move", "a.c", "b.c", false},
+	{c38Corpus[0], "move", "a", "b.a", true},
+	{c38Corpus[0], "rename", "a.b", "c", false},
+	{c38Corpus[0], "rename", "a", "b", false},
+	// two children collide, one with an index suffix
+	{c38Corpus[1], "delobj", "x", "", false},
+	{c38Corpus[1], "move", "x", "a.x", false},
+	// child with the name of the deleted object
+	{c38Corpus[2], "delobj", "p.x", "", false},
+	{c38Corpus[2], "move", "p.x", "x", false},
+	// same-scope move without descendants while a child's name exists next to the object
+	{"a: L1 {\n  b: L2\n}\nb: L3\n", "move", "a", "c", false},
+	// children a / a 2 hoisted next to an existing a
+	{"p: L1 {\n  x: L2 {\n    a: L3\n    a 2: L4\n  }\n  a: L5\n}\nq: L6\n", "move", "p.x", "q.x", false},
+	{"p: L1 {\n  x: L2 {\n    a: L3\n    a 2: L4\n  }\n  a: L5\n}\nq: L6\n", "delobj", "p.x", "", false},
+	// rename of a nested object to a name that exists at the root / to the name of a sibling
+	{c38Corpus[5], "rename", "a.b", "c", false},
+	{c38Corpus[5], "rename", "a.b.c", "a", false},
+	{"p: L1 {\n  c: L2\n  c 2: L3\n}\n", "rename", "p.c 2", "c", false},
+	// edge-key references with explicit indexes have to be renumbered
+	{"a: L1\nb: L2\na -> b: E1\na -> b: E2\na -> b: E3\n(a -> b)[2].style.stroke: red\n(a -> b)[1].style.opacity: 0.4\n", "deledge", "(a -> b)[0]", "", false},
+	{"a: L1\nb: L2\na -> b: E1\na -> b: E2\na -> b: E3\n(a -> b)[2].style.stroke: red\n(a -> b)[1].style.opacity: 0.4\n", "deledge", "(a -> b)[1]", "", false},
+	{"c: L1 {\n  a: L2\n  b: L3\n  a -> b: E1\n  a -> b: E2\n  (a -> b)[1].style.stroke: red\n}\n", "deledge", "c.(a -> b)[0]", "", false},
+	// attributes
+	{c38Corpus[4], "delobjattr", "d.tooltip", "", false},
+	{c38Corpus[4], "deledgeattr", "(a.b.c -> d)[0].style.stroke", "", false},
+	{c38Corpus[4], "delobj", "a.b", "", false},
+}
+
+// c38Scripted turns the scripted steps whose kind is in kinds into cases.
+func c38Scripted(kinds []string, kf func(pg *c38PGraph, op *c38Op, text string) []string) []Case {
+	var out []Case
+	for _, st := range c38Scripts {
+		ok := false
+		for _, k := range kinds {
+			if k == st.kind {
+				ok = true
+			}
+		}
+		if !ok {
+			continue
+		}
+		g, err := c38Compile(st.text)
+		if err != nil {
+			continue
+		}
+		pg := c38Project(g)
+		op := c38ResolveOp(pg, st)
+		if op == nil {
+			continue
+		}
+		c, _ := c38RunStep(g, pg, op, "script", 0, kf)
+		out = append(out, c)
+	}
+	return out
+}
+
+// c38ResolveOp builds the operation of a scripted step from IDs.
+func c38ResolveOp(pg *c38PGraph, st c38Step) *c38Op {
+	byID := func(id string) *c38PObj {
+		for _, o := range pg.Rows {
+			if o.ID == id {
+				return o
+			}
+		}
+		return nil
+	}
+	switch st.kind {
+	case "delobj":
+		if o := byID(st.key); o != nil {
+			return &c38Op{Kind: st.kind, Key: o.ID, tgt: o, Coq: fmt.Sprintf("(OpDelObj %d)", o.Lbl)}
+		}
+	case "deledge":
+		for _, e := range pg.Edges {
+			if e.ID == st.key {
+				return &c38Op{Kind: st.kind, Key: e.ID, tedge: e, Coq: fmt.Sprintf("(OpDelEdge %d)", e.Lbl)}
+			}
+		}
+	case "delobjattr":
+		i := strings.Index(st.key, ".")
+		for i >= 0 {
+			if o := byID(st.key[:i]); o != nil {
+				a := st.key[i+1:]
+				if c38AttrCode(a) != 99 {
+					return &c38Op{Kind: st.kind, Key: st.key, tgt: o, attr: a, Coq: fmt.Sprintf("(OpDelObjAttr %d %d)", o.Lbl, c38AttrCode(a))}
+				}
+			}
+			j := strings.Index(st.key[i+1:], ".")
+			if j < 0 {
+				break
+			}
+			i += 1 + j
+		}
+	case "deledgeattr":
+		for _, e := range pg.Edges {
+			if strings.HasPrefix(st.key, e.ID+".") {
+				a := st.key[len(e.ID)+1:]
+				return &c38Op{Kind: st.kind, Key: st.key, tedge: e, attr: a, Coq: fmt.Sprintf("(OpDelEdgeAttr %d %d)", e.Lbl, c38AttrCode(a))}
+			}
+		}
+	case "rename":
+		if o := byID(st.key); o != nil {
+			return &c38Op{Kind: st.kind, Key: o.ID, Arg: st.arg, tgt: o, name: st.arg, Coq: fmt.Sprintf("(OpRename %d %s)", o.Lbl, c38CoqStr(st.arg))}
+		}
+	case "move":
+		o := byID(st.key)
+		if o == nil {
+			return nil
+		}
+		name := st.arg
+		var dest *c38PObj
+		dl := "None"
+		if i := strings.LastIndex(st.arg, "."); i >= 0 {
+			dest = byID(st.arg[:i])
+			name = st.arg[i+1:]
+			if dest == nil {
+				return nil
+			}
+			dl = fmt.Sprintf("(Some %d)", dest.Lbl)
+		}
+		return &c38Op{Kind: st.kind, Key: o.ID, Arg: st.arg, Incl: st.incl, tgt: o, dest: dest, name: name,
+			Coq: fmt.Sprintf("(OpMove %d %s %s %s)", o.Lbl, dl, c38CoqStr(name), coqBool(st.incl))}
+	}
+	return nil
+}
+
 func c38Gen(r *Rng, tier string, n int) []Case {
 	kinds := []string{"delobj", "delobj", "delobj", "deledge", "deledge", "delobjattr", "deledgeattr"}
-	var out []Case
+	out := c38Scripted(kinds, c38KF)
 	for _, t := range c38Corpus {
 		for k := 0; k < 3; k++ {
 			out = append(out, c38History(r.Fork(), t, 6, kinds, "corpus", c38KF)...)
